@@ -6,6 +6,7 @@ import (
 	"errors"
 	"fmt"
 	"net"
+	"sort"
 
 	stun "github.com/pion/stun/v3"
 
@@ -24,6 +25,15 @@ type c09Case struct {
 var c09Codes = map[int]bool{300: true, 400: true, 401: true, 403: true, 420: true, 437: true, 438: true, 440: true, 441: true,
 	442: true, 443: true, 446: true, 447: true, 486: true, 487: true, 500: true, 508: true}
 
+func c09KnownSorted() []int {
+	var l []int
+	for k := range c09Codes {
+		l = append(l, k)
+	}
+	sort.Ints(l)
+	return l
+}
+
 func c09Pre(pre int) *stun.Message {
 	tid := stun.NewTransactionIDSetter([12]byte{1, 2, 3, 4, 5, 6, 7, 8, 9, 10, 11, 12})
 	switch pre {
@@ -39,6 +49,16 @@ func c09Pre(pre int) *stun.Message {
 		return stun.MustBuild(stun.BindingRequest, tid, stun.NewUsername("u"), stun.Fingerprint, stun.NewSoftware("after"))
 	case 6: // FINGERPRINT first, two attributes after it
 		return stun.MustBuild(stun.BindingRequest, tid, stun.Fingerprint, stun.NewRealm("r"), stun.NewNonce("n"))
+	case 7, 8: // struct fields assigned directly and not (yet) written to Raw; 7 carries a FINGERPRINT
+		var m *stun.Message
+		if pre == 7 {
+			m = stun.MustBuild(stun.BindingRequest, tid, stun.NewUsername("u"), stun.Fingerprint)
+		} else {
+			m = stun.MustBuild(stun.BindingRequest, tid, stun.NewUsername("abc"), stun.NewRealm("de"))
+		}
+		m.TransactionID = [12]byte{0xEE, 0xEE, 0xEE, 0xEE, 0xEE, 0xEE, 0xEE, 0xEE, 0xEE, 0xEE, 0xEE, 0xEE}
+		m.Type = stun.BindingError
+		return m
 	default:
 		return stun.MustBuild(stun.BindingRequest, tid, stun.NewUsername("abc"), stun.NewRealm("de"), stun.NewNonce("fghij"))
 	}
@@ -151,7 +171,7 @@ func c09Setter(name string, n, pre int) (s stun.Setter, accept bool, classOK fun
 	case "OtherAddress":
 		return &stun.OtherAddress{IP: net.IP(bytesOf(n)), Port: 7}, ipOK, badIP, "ErrBadIPLength"
 	case "MessageIntegrity":
-		return stun.MessageIntegrity(bytesOf(n)), pre != 3 && pre != 5 && pre != 6, func(err error) bool { return errors.Is(err, stun.ErrFingerprintBeforeIntegrity) }, "ErrFingerprintBeforeIntegrity"
+		return stun.MessageIntegrity(bytesOf(n)), pre != 3 && pre != 5 && pre != 6 && pre != 7, func(err error) bool { return errors.Is(err, stun.ErrFingerprintBeforeIntegrity) }, "ErrFingerprintBeforeIntegrity"
 	}
 	panic("c09: unknown setter " + name)
 }
@@ -293,7 +313,7 @@ func init() {
 					c.Sample(k)
 				}
 			}
-			for pre := 0; pre < 7; pre++ {
+			for pre := 0; pre < 9; pre++ {
 				for _, ts := range []struct {
 					name string
 					max  int
@@ -331,6 +351,13 @@ func init() {
 				}
 				for code := 0; code <= 999; code++ {
 					do(c09Case{Setter: "ErrorCode", N: code, Pre: pre})
+				}
+				// ErrorCode is an int: values outside 0..65535 whose low 8/16/32 bits are a code with a default reason
+				for _, known := range c09KnownSorted() {
+					for _, off := range []int{1 << 8, 1 << 16, 3 << 16, -(1 << 16), 1 << 32, -(1 << 32), 1 << 31} {
+						do(c09Case{Setter: "ErrorCode", N: known + off, Pre: pre})
+					}
+					do(c09Case{Setter: "ErrorCode", N: -known, Pre: pre})
 				}
 				for _, n := range []int{0, 1, 20, 64, 65} {
 					do(c09Case{Setter: "MessageIntegrity", N: n, Pre: pre})
